@@ -157,6 +157,8 @@ def block_partitioner(ctx):
         return dv
       if t.op == 'sub' and t.args[0].op == 'elem' and is_const(t.args[1], 1) and 'enumerate' in show(t.args[0], maxdepth=3):
         return dv
+      if t.op == 'sub' and t.args[1].op == 'rangevar' and path_str(t.args[0]) in ('param.shape', 'self._shape'):
+        return dv          # shape[i] for a loop index i
       return None
 
     def oracle(c):
@@ -499,6 +501,11 @@ def _chain_layout(t, leaf_layouts):
     if ax is None:
       raise L.LayoutError('axis-less squeeze')
     return L.squeeze(base, cval(ax))
+  if t.op == 'sub':
+    from ..symb import _newaxis_position
+    k = _newaxis_position(t.args[1])          # x[:, :, None] / x[None]: a unit axis inserted at position k
+    if k is not None:
+      return L.expand_dims(_chain_layout(t.args[0], leaf_layouts), k)
   raise L.LayoutError(f'unrecognised shape op: {show(t, maxdepth=3)[:100]}')
 
 
